@@ -116,6 +116,22 @@ warnings.filterwarnings("ignore", category=DeprecationWarning)
 import chempy
 assert os.path.realpath(chempy.__file__).startswith(os.path.realpath(sys.path[0]) + os.sep), chempy.__file__
 from fractions import Fraction
+
+
+_CHEMPY_ROOT = os.path.realpath(sys.path[0]) + os.sep + "chempy" + os.sep
+
+
+def _excepthook(tp, val, tb):
+    # an uncaught exception raised INSIDE chempy counts as a reproduction (exit 1: the real code failed on a concrete input for which
+    # the obligation expects a value); one raised by the replay script or by /verif helpers is a harness crash (exit 3, never a verdict)
+    import traceback
+    traceback.print_exception(tp, val, tb)
+    last = traceback.extract_tb(tb)[-1].filename if tb is not None else ""
+    sys.stdout.flush(); sys.stderr.flush()
+    os._exit(1 if os.path.realpath(last).startswith(_CHEMPY_ROOT) else 3)
+
+
+sys.excepthook = _excepthook
 '''
 
 
